@@ -135,7 +135,23 @@ class PathProver:
         res['obligations'] += 1
         res['nontrivial'] += 1
         t = time.time()
-        r, m = self.ex.prove(goal if not isinstance(goal, bool) else z3.BoolVal(goal), extra)
+        g0 = goal if not isinstance(goal, bool) else z3.BoolVal(goal)
+        fb = getattr(self, 'fallback', None)
+        if fb is None:
+            r, m = self.ex.prove(g0, extra)
+        else:
+            # structurally equal designs simplify to true and small obligations are left to the solver; a large obligation that does not
+            # simplify away is first evaluated on seeded inputs (z3 does not honour its timeout reliably on deep unequal miters), then solved
+            r = None
+            sg = z3.simplify(g0)
+            if z3.is_true(sg):
+                r, m = 'unsat', None
+            elif term_size(sg, 300) >= 300:
+                m = fb(g0)
+                if m is not None:
+                    r = 'sat'
+            if r is None:
+                r, m = self.ex.prove(g0, extra)
         dt = time.time() - t
         if r == 'unsat':
             res['discharged'] += 1
@@ -149,37 +165,65 @@ class PathProver:
             if len(res['samples']) < 6:
                 res['samples'].append(dict(obligation=desc, verdict='sat', ms=round(dt * 1000, 1)))
             return False
-        m = self.fallback(goal) if getattr(self, 'fallback', None) else None
-        if m is not None:
-            w = witness_fn(m) if witness_fn else dict(what=desc)
-            w.setdefault('what', desc)
-            w['route'] = 'solver unknown on the symbolic query; witness found by solving it with seeded input values'
-            res['failures'].append(w)
-            return False
         res['unknown'].append(f'{desc}: solver returned unknown after {dt:.1f}s')
         return False
 
 
-def seeded_refute(goal, inputs, axioms=(), tries=8, seed=0, timeout_ms=20000):
-    """After `unknown`: fix the input terms to seeded values and ask again (a ground query).  Returns a model or None."""
+def term_size(t, cap):
+    """Number of distinct AST nodes of t, counting stops at cap."""
+    seen = set()
+    stack = [t]
+    while stack and len(seen) < cap:
+        e_ = stack.pop()
+        k = e_.get_id()
+        if k in seen:
+            continue
+        seen.add(k)
+        stack.extend(e_.children())
+    return len(seen)
+
+
+class EvalModel:
+    """Model-like object for a full assignment of the input symbols (evaluation by substitution + simplification)."""
+
+    def __init__(self, pairs, axioms=()):
+        self.pairs = pairs
+        self.axioms = axioms
+
+    def eval(self, t, model_completion=True):
+        r = z3.simplify(z3.substitute(t, *self.pairs))
+        if self.axioms and not (z3.is_bv_value(r) or z3.is_true(r) or z3.is_false(r) or z3.is_rational_value(r) or z3.is_int_value(r)):
+            s = z3.Solver()
+            s.add(*self.axioms)
+            if s.check() == z3.sat:
+                r = s.model().eval(r, model_completion=True)
+        return r
+
+
+def seeded_refute(goal, inputs, axioms=(), tries=6, seed=0, timeout_ms=20000, assumptions=()):
+    """Look for a counterexample to `goal` by evaluating it on seeded values of the input symbols (substitution + simplification;
+    `axioms` are ground table interpretations used when function symbols remain).  Returns a model-like object or None."""
     r = random.Random(seed)
-    s = z3.Solver()
-    s.set('timeout', timeout_ms)
-    s.add(*axioms)
-    s.add(z3.Not(goal))
     for _ in range(tries):
-        s.push()
+        pairs = []
         for t in inputs:
             if z3.is_bv(t):
-                s.add(t == z3.BitVecVal(r.getrandbits(t.size()), t.size()))
+                hint = E.HINTS.get(t.get_id())
+                v = r.getrandbits(t.size())
+                if hint is not None:
+                    v &= hint
+                pairs.append((t, z3.BitVecVal(v, t.size())))
+            elif z3.is_bool(t):
+                pairs.append((t, z3.BoolVal(bool(r.getrandbits(1)))))
             elif t.is_int():
-                s.add(t == r.randint(-9, 9))
+                pairs.append((t, z3.IntVal(r.randint(-9, 9))))
             else:
-                s.add(t == z3.RealVal(r.randint(-9, 9)))
-        v = s.check()
-        m = s.model() if v == z3.sat else None
-        s.pop()
-        if m is not None:
+                pairs.append((t, z3.RealVal(r.randint(-9, 9))))
+        m = EvalModel(pairs, axioms)
+        if assumptions and not all(z3.is_true(m.eval(a)) for a in assumptions):
+            continue
+        v = m.eval(goal)
+        if z3.is_false(v):
             return m
     return None
 
